@@ -269,6 +269,12 @@ func (fx *FnCtx) ptrLeaves(p *PtrInfo) []Leaf {
 
 // Load reads the value a pointer refers to.
 func (fx *FnCtx) Load(st *State, p *PtrInfo) Value {
+	if p.Kind == PGlobal && p.Off == 0 {
+		// a package-level function variable resolved to the function it is initialised with
+		if v := fx.globalValue(st, p.Global); v.Fn != nil {
+			return v
+		}
+	}
 	leaves := fx.ptrLeaves(p)
 	out := Value{T: p.Typ, L: make([]*Term, len(leaves))}
 	for i, lf := range leaves {
